@@ -176,7 +176,10 @@ class Env:
         if op == "join":
             on = st["on"]
             on = [self.expr(o) if isinstance(o, dict) else o for o in on] if isinstance(on, list) else (self.expr(on) if isinstance(on, dict) else on)
-            return t >> pdt.join(self.tables[st["right"]], on, st["how"], suffix=st.get("suffix"))
+            right = self.tables[st["right"]]
+            # iteration order of the name set used by the suffix loop (hash-seed dependent)
+            self.last_set_order = list(set(right._cache.uuid_to_name[col._uuid] for col in right))
+            return t >> pdt.join(right, on, st["how"], suffix=st.get("suffix"))
         if op == "cross_join":
             from pydiverse.transform._internal.pipe.verbs import cross_join
 
@@ -226,42 +229,53 @@ def export_obs(t, target: str):
 # -------------------------------------------------------------------- cache observation (O3)
 
 
-class UidCanon:
-    """numbers UUIDs by order of first appearance in the observation stream"""
-
-    def __init__(self):
-        self.m = {}
-
-    def __call__(self, u):
-        if u not in self.m:
-            self.m[u] = len(self.m)
-        return self.m[u]
-
-
 def ftype_name(f):
     return None if f is None else f.name.lower()
 
 
-def cache_obs(t: pdt.Table, canon: UidCanon) -> dict:
+def cache_obs(t: pdt.Table) -> dict:
+    """raw observation of a table's Cache (UUIDs as strings; dict orders preserved)"""
     c = t._cache
-    vis = [(n, canon(u)) for n, u in c.name_to_uuid.items()]
-    u2n = [(canon(u), n) for u, n in c.uuid_to_name.items()]
-    cols = []
-    for u, col in c.cols.items():
-        cols.append((canon(u), col.name, realtypes.dt_text(col._dtype) if col._dtype is not None else None, ftype_name(col._ftype)))
     return dict(
-        visible=vis,
-        uuid_to_name=u2n,
-        scope=sorted(x[0] for x in cols),
-        cols=sorted(cols),
-        partition_by=[canon(u) for u in c.partition_by],
+        visible=[[n, str(u)] for n, u in c.name_to_uuid.items()],
+        uuid_to_name=[[str(u), n] for u, n in c.uuid_to_name.items()],
+        cols=[[str(u), col.name, realtypes.dt_text(col._dtype) if col._dtype is not None else None, ftype_name(col._ftype)]
+              for u, col in c.cols.items()],
+        partition_by=[str(u) for u in c.partition_by],
         limit=c.limit,
-        group_by=sorted(canon(u) for u in c.group_by),
+        group_by=sorted(str(u) for u in c.group_by),
         is_filtered=c.is_filtered,
         backend=c.backend.backend_name,
         columns=list(t >> pdt.columns()),
         n_derived=len(c.derived_from),
     )
+
+
+def canon_stream(obs: list[dict]) -> list[dict]:
+    """number UUIDs by first appearance (visible, then scope in dict order) so that the real
+    run and the model run can be compared; sets are sorted after numbering"""
+    m = {}
+
+    def cn(u):
+        u = str(u)
+        if u not in m:
+            m[u] = len(m)
+        return m[u]
+
+    out = []
+    for ob in obs:
+        ob = dict(ob)
+        c = ob.get("cache")
+        if c:
+            c = dict(c)
+            c["visible"] = [[n, cn(u)] for n, u in c["visible"]]
+            c["uuid_to_name"] = [[cn(u), n] for u, n in c["uuid_to_name"]]
+            c["cols"] = [[cn(x[0])] + list(x[1:]) for x in c["cols"]]
+            c["partition_by"] = [cn(u) for u in c["partition_by"]]
+            c["group_by"] = sorted(cn(u) for u in c["group_by"])
+            ob["cache"] = c
+        out.append(ob)
+    return out
 
 
 def run_program(prog: dict, backend: str, *, observe_cache=True, stop_on_error=False) -> list[dict]:
@@ -270,7 +284,6 @@ def run_program(prog: dict, backend: str, *, observe_cache=True, stop_on_error=F
     with warnings.catch_warnings():
         warnings.simplefilter("ignore")
         env = Env(prog, backend)
-        canon = UidCanon()
         for st in prog["stmts"]:
             ob = dict(id=st["id"], op=st["op"])
             needs = [st.get("src"), st.get("right")]
@@ -279,7 +292,12 @@ def run_program(prog: dict, backend: str, *, observe_cache=True, stop_on_error=F
                 out.append(ob)
                 continue
             try:
-                r = env.apply(st)
+                env.last_set_order = None
+                try:
+                    r = env.apply(st)
+                finally:
+                    if st["op"] == "join" and env.last_set_order is not None:
+                        ob["set_order"] = env.last_set_order
                 ob["outcome"] = "ok"
                 if st["op"] == "expr":
                     env.exprs[st["id"]] = r
@@ -290,7 +308,8 @@ def run_program(prog: dict, backend: str, *, observe_cache=True, stop_on_error=F
                 else:
                     env.tables[st["id"]] = r
                     if observe_cache:
-                        ob["cache"] = cache_obs(r, canon)
+                        ob["cache"] = cache_obs(r)
+
             except Exception as e:  # noqa: BLE001
                 ob["outcome"] = "error"
                 ob["exc"] = exc_class(e)
